@@ -121,6 +121,35 @@ fn copy_elemwise<T: Copy>(dst: &mut [T], src: &[T]) {
     }
 }
 
+fn part2_stub<T>(sequence: &mut [T], shift: usize)
+where
+    T: num_traits::Unsigned + num_traits::PrimInt + Ord + std::ops::Shr<usize> + AsPrimitive<usize>,
+    usize: AsPrimitive<T>,
+{
+    let n = sequence.len();
+    assert!(n <= CAP);
+    let mut buf = [T::zero(); CAP];
+    let mut pos = 0;
+    let mut g = 0usize;
+    while g < 2 {
+        let mut i = 0;
+        while i < n {
+            let key: usize = (sequence[i] >> shift).as_() & 1;
+            if key == g {
+                buf[pos] = sequence[i];
+                pos += 1;
+            }
+            i += 1;
+        }
+        g += 1;
+    }
+    let mut i = 0;
+    while i < n {
+        sequence[i] = buf[i];
+        i += 1;
+    }
+}
+
 type Tree<T> = WaveletTree<T, ModelBRS, false>;
 
 fn occ<T: PartialEq + Copy, const N: usize>(s: &[T; N], c: T, upto: usize) -> usize {
@@ -147,7 +176,7 @@ macro_rules! wt_laws {
     ($name:ident, $t:ty, $n:expr, $pin:expr, $levels:expr, $unw:expr, $what:expr) => {
         #[kani::proof]
         #[kani::unwind($unw)]
-        #[kani::stub(<[$t]>::copy_from_slice, copy_elemwise)]
+        #[kani::stub(crate::utils::stable_partition_of_2, part2_stub)]
         fn $name() {
             let s = any_seq!($t, $n, $pin);
             let mut w = s;
@@ -195,39 +224,39 @@ macro_rules! wt_laws {
         }
     };
 }
-// @h props=C03,C04,C10,C12:t,C19:t tier=quick family=M prof=AB mem=5 timeout=2400 stubs=ModelBRS,slice::copy_from_slice->elementwise_loop role=wt.get.u8
-// @bound WaveletTree<u8, ModelBRS, false>: length 4, contents symbolic with s[3] = 255 (8 levels): get for every index of the machine range
+// @h props=C03,C04,C10,C12:t,C19:t tier=quick family=M prof=AB mem=5 timeout=2400 stubs=ModelBRS,utils::stable_partition_of_2->fixed_array_reference(c17) role=wt.get.u8
+// @bound WaveletTree<u8, ModelBRS, false>: length 3, contents symbolic with s[2] = 255 (8 levels): get for every index of the machine range
 // @funcs WaveletTree::new, WaveletTree::get, WaveletTree::get_unchecked, WaveletTree::len, WaveletTree::n_levels, utils::stable_partition_of_2, BitVectorMut::push
-wt_laws!(c03_get_u8_n4, u8, 4, 3, 8, 10, 0);
-// @h props=C03,C04,C10 tier=quick family=M prof=AB mem=5 timeout=2400 stubs=ModelBRS,slice::copy_from_slice->elementwise_loop role=wt.rank.u8
-// @bound WaveletTree<u8, ModelBRS, false>: length 4 (s[0] = 255): rank for every symbol and position, checked and unchecked
+wt_laws!(c03_get_u8_n3, u8, 3, 2, 8, 10, 0);
+// @h props=C03,C04,C10 tier=quick family=M prof=AB mem=5 timeout=2400 stubs=ModelBRS,utils::stable_partition_of_2->fixed_array_reference(c17) role=wt.rank.u8
+// @bound WaveletTree<u8, ModelBRS, false>: length 3 (s[0] = 255): rank for every symbol and position, checked and unchecked
 // @funcs WaveletTree::new, WaveletTree::rank, WaveletTree::rank_unchecked
-wt_laws!(c03_rank_u8_n4, u8, 4, 0, 8, 10, 1);
-// @h props=C03,C04,C10 tier=quick family=M mem=5 timeout=2400 stubs=ModelBRS,slice::copy_from_slice->elementwise_loop role=wt.select.u8
-// @bound WaveletTree<u8, ModelBRS, false>: length 4 (s[1] = 255): select for every symbol and every k, checked and unchecked
+wt_laws!(c03_rank_u8_n3, u8, 3, 0, 8, 10, 1);
+// @h props=C03,C04,C10 tier=quick family=M mem=5 timeout=2400 stubs=ModelBRS,utils::stable_partition_of_2->fixed_array_reference(c17) role=wt.select.u8
+// @bound WaveletTree<u8, ModelBRS, false>: length 3 (s[1] = 255): select for every symbol and every k, checked and unchecked
 // @funcs WaveletTree::new, WaveletTree::select, WaveletTree::select_unchecked
-wt_laws!(c03_select_u8_n4, u8, 4, 1, 8, 10, 2);
-// @h props=C03 tier=thorough family=M mem=5 timeout=3000 stubs=ModelBRS,slice::copy_from_slice->elementwise_loop role=wt.get.u16
+wt_laws!(c03_select_u8_n3, u8, 3, 1, 8, 10, 2);
+// @h props=C03 tier=thorough family=M mem=5 timeout=3000 stubs=ModelBRS,utils::stable_partition_of_2->fixed_array_reference(c17) role=wt.get.u16
 // @bound WaveletTree<u16, ModelBRS, false>: length 3 (16 levels): get
 // @funcs WaveletTree::new, WaveletTree::get
 wt_laws!(c03_get_u16_n3, u16, 3, 0, 16, 18, 0);
-// @h props=C03 tier=thorough family=M mem=5 timeout=3000 stubs=ModelBRS,slice::copy_from_slice->elementwise_loop role=wt.get.u32
+// @h props=C03 tier=thorough family=M mem=5 timeout=3000 stubs=ModelBRS,utils::stable_partition_of_2->fixed_array_reference(c17) role=wt.get.u32
 // @bound WaveletTree<u32, ModelBRS, false>: length 2 (32 levels): get
 // @funcs WaveletTree::new, WaveletTree::get
 wt_laws!(c03_get_u32_n2, u32, 2, 0, 32, 34, 0);
-// @h props=C03,C19:t tier=quick family=M mem=5 timeout=3600 stubs=ModelBRS,slice::copy_from_slice->elementwise_loop role=wt.get.u64
+// @h props=C03,C19:t tier=thorough family=M mem=5 timeout=3600 stubs=ModelBRS,utils::stable_partition_of_2->fixed_array_reference(c17) role=wt.get.u64
 // @bound WaveletTree<u64, ModelBRS, false>: length 2 (s[1] = u64::MAX, 64 levels): get - values that need more than 32 bits
 // @funcs WaveletTree::new, WaveletTree::get
 wt_laws!(c03_get_u64_n2, u64, 2, 1, 64, 66, 0);
-// @h props=C03 tier=thorough family=M mem=5 timeout=3600 stubs=ModelBRS,slice::copy_from_slice->elementwise_loop role=wt.rank.u64
+// @h props=C03 tier=thorough family=M mem=5 timeout=3600 stubs=ModelBRS,utils::stable_partition_of_2->fixed_array_reference(c17) role=wt.rank.u64
 // @bound WaveletTree<u64, ModelBRS, false>: length 2 (64 levels): rank
 // @funcs WaveletTree::new, WaveletTree::rank
 wt_laws!(c03_rank_u64_n2, u64, 2, 0, 64, 66, 1);
-// @h props=C03 tier=thorough family=M mem=5 timeout=3600 stubs=ModelBRS,slice::copy_from_slice->elementwise_loop role=wt.select.u64
+// @h props=C03 tier=thorough family=M mem=5 timeout=3600 stubs=ModelBRS,utils::stable_partition_of_2->fixed_array_reference(c17) role=wt.select.u64
 // @bound WaveletTree<u64, ModelBRS, false>: length 2 (64 levels): select
 // @funcs WaveletTree::new, WaveletTree::select
 wt_laws!(c03_select_u64_n2, u64, 2, 0, 64, 66, 2);
-// @h props=C03 tier=thorough family=M mem=5 timeout=3600 stubs=ModelBRS,slice::copy_from_slice->elementwise_loop role=wt.get.u128
+// @h props=C03 tier=thorough family=M mem=5 timeout=3600 stubs=ModelBRS,utils::stable_partition_of_2->fixed_array_reference(c17) role=wt.get.u128
 // @bound WaveletTree<u128, ModelBRS, false>: length 1 (128 levels): get
 // @funcs WaveletTree::new, WaveletTree::get
 wt_laws!(c03_get_u128_n1, u128, 1, 0, 128, 130, 0);
@@ -236,7 +265,7 @@ macro_rules! wt_concrete {
     ($name:ident, $t:ty, $seq:expr, $n:expr, $levels:expr, $unw:expr) => {
         #[kani::proof]
         #[kani::unwind($unw)]
-        #[kani::stub(<[$t]>::copy_from_slice, copy_elemwise)]
+        #[kani::stub(crate::utils::stable_partition_of_2, part2_stub)]
         fn $name() {
             let s: [$t; $n] = $seq;
             let mut w = s;
@@ -279,19 +308,19 @@ macro_rules! wt_concrete {
         }
     };
 }
-// @h props=C03,C04 tier=quick family=M mem=5 timeout=1800 stubs=ModelBRS,slice::copy_from_slice->elementwise_loop role=wt.concrete.sigma5
+// @h props=C03,C04 tier=quick family=M mem=5 timeout=1800 stubs=ModelBRS,utils::stable_partition_of_2->fixed_array_reference(c17) role=wt.concrete.sigma5
 // @bound concrete [1,0,2,4,5,3] (max 5: 3 levels), queries symbolic over the machine range: get, rank, select; symbols above max give None in rank AND select
 // @funcs WaveletTree::new, WaveletTree::get, WaveletTree::rank, WaveletTree::select
 wt_concrete!(c03_concrete_sigma5, u8, [1, 0, 2, 4, 5, 3], 6, 3, 10);
-// @h props=C03 tier=quick family=M mem=5 timeout=1800 stubs=ModelBRS,slice::copy_from_slice->elementwise_loop role=wt.concrete.two_symbols
+// @h props=C03 tier=quick family=M mem=5 timeout=1800 stubs=ModelBRS,utils::stable_partition_of_2->fixed_array_reference(c17) role=wt.concrete.two_symbols
 // @bound concrete two-symbol sequence [0,1,1,0] (one level), queries symbolic
 // @funcs WaveletTree::new, WaveletTree::get, WaveletTree::rank, WaveletTree::select
 wt_concrete!(c03_concrete_two, u16, [0, 1, 1, 0], 4, 1, 10);
-// @h props=C03 tier=quick family=M mem=5 timeout=1800 stubs=ModelBRS,slice::copy_from_slice->elementwise_loop role=wt.concrete.one_symbol
+// @h props=C03 tier=quick family=M mem=5 timeout=1800 stubs=ModelBRS,utils::stable_partition_of_2->fixed_array_reference(c17) role=wt.concrete.one_symbol
 // @bound concrete one-symbol sequence [0,0,0] (max 0), queries symbolic
 // @funcs WaveletTree::new, WaveletTree::get, WaveletTree::rank, WaveletTree::select
 wt_concrete!(c03_concrete_zeros, u32, [0, 0, 0], 3, 1, 10);
-// @h props=C03 tier=thorough family=M mem=5 timeout=1800 stubs=ModelBRS,slice::copy_from_slice->elementwise_loop role=wt.concrete.holes
+// @h props=C03 tier=thorough family=M mem=5 timeout=1800 stubs=ModelBRS,utils::stable_partition_of_2->fixed_array_reference(c17) role=wt.concrete.holes
 // @bound concrete [6,2,6] (max 6, holes), queries symbolic
 // @funcs WaveletTree::new, WaveletTree::get, WaveletTree::rank, WaveletTree::select
 wt_concrete!(c03_concrete_holes, u64, [6, 2, 6], 3, 3, 10);
@@ -324,7 +353,7 @@ fn c03_empty_model() {
 // @funcs WaveletTree::new, WaveletTree::get
 #[kani::proof]
 #[kani::unwind(10)]
-#[kani::stub(<[u8]>::copy_from_slice, copy_elemwise)]
+#[kani::stub(crate::utils::stable_partition_of_2, part2_stub)]
 fn c03_false_twin() {
     let s = any_seq!(u8, 3, 2);
     let mut w = s;
